@@ -78,6 +78,17 @@ def run(ctx):
     cur = S0
     plan = []
     n = 1 + cfg.draw(12)
+    if cfg.draw(250) == 0:
+        n = 300 + cfg.draw(300)  # a long plan (several hundred steps, a plan text of 10-20 thousand characters)
+        ctx.probes["long_plan_wanted"] += 1
+        if cfg.draw(2) == 0:
+            # long runs are where applications turn logging on: DEBUG level, records dropped by a NullHandler (the
+            # engine's logging swarm dimension, here with probability 1/2 instead of 1/4)
+            import logging
+            logging.disable(logging.NOTSET)
+            logging.getLogger().setLevel(logging.DEBUG)
+            if not any(isinstance(h, logging.NullHandler) for h in logging.getLogger().handlers):
+                logging.getLogger().handlers = [logging.NullHandler()]
     for _ in range(n):
         r = None
         for _try in range(8):
@@ -105,6 +116,8 @@ def run(ctx):
         cur = r[1]
     if not plan:
         raise Skip()
+    if len(plan) >= 250:
+        ctx.probes["long_plan"] += 1
     if any(x != y and "_".join(x[1]) == "_".join(y[1]) and x[0] == y[0] for x in plan for y in plan):
         ctx.probes["plan_with_join_twins"] += 1
     final_seq = cur
